@@ -132,7 +132,7 @@ func genShape(p *pkgInfo, out string) {
 		})
 	}
 	sort.Strings(untracked)
-	list("untrackedGo", "functions with a `go` statement that is not immediately preceded by wg.Add(1)", untracked)
+	list("untrackedGo", "functions with a `go` statement that is not preceded (assignments aside) by wg.Add(1)", untracked)
 
 	// (D) guards
 	bl := p.fn("kvElection.becomeLeader")
@@ -193,8 +193,18 @@ func checkGo(p *pkgInfo, fname string, stmts []ast.Stmt, untracked *[]string) {
 	for i, s := range stmts {
 		if _, ok := s.(*ast.GoStmt); ok {
 			tracked := false
-			if i > 0 {
-				if es, ok := stmts[i-1].(*ast.ExprStmt); ok {
+			// the statement before the `go`, looking past plain assignments and declarations in between
+			j := i - 1
+			for j >= 0 {
+				switch stmts[j].(type) {
+				case *ast.AssignStmt, *ast.DeclStmt:
+					j--
+					continue
+				}
+				break
+			}
+			if j >= 0 {
+				if es, ok := stmts[j].(*ast.ExprStmt); ok {
 					if c, ok := es.X.(*ast.CallExpr); ok {
 						nm := exprName(c.Fun)
 						if strings.HasSuffix(nm, "wg.Add") {
